@@ -158,4 +158,78 @@ Proof.
   exact (interleave_independent tr1 tr2 c outs1 outs2 Hd Hs B1 B2 Hp H1 H2 sid).
 Qed.
 
+
+(* ------------------------------------------------------------------ unidirectional streams in between *)
+(* nothing waits for the encoder stream: its deliveries report no stream as unblocked *)
+Definition quiet : Prop := forall x l, o_enc O x = EUnblocked l -> l = [].
+
+Lemma pop_no_local_end : forall c sid, c_sent_end c = [] -> pop_if_ended c sid = c.
+Proof.
+  intros c sid H. unfold pop_if_ended. destruct (find_stream sid (c_streams c)); [|reflexivity].
+  unfold is_ended. rewrite H. reflexivity.
+Qed.
+
+(* a delivery on a unidirectional stream (control, push, WebTransport, QPACK encoder / decoder, unknown type) that
+   returns events leaves every bidirectional stream's entry alone *)
+Lemma step_uni : forall c sid d f e c', c_done c = false -> c_sent_end c = [] -> is_uni sid = true -> quiet ->
+  handle_event fx O c (QStream sid d f) = (Events e, c') ->
+  c_done c' = false /\ c_sent_end c' = [] /\ c_client c' = c_client c /\
+  (forall x, is_uni x = false -> fst (get_or_create c' x) = fst (get_or_create c x)).
+Proof.
+  intros c sid d f e c' Hd Hs Hu Hq H.
+  rewrite (he_stream fx O c sid d f Hd) in H. unfold receive_stream_data in H.
+  rewrite (recv0_uni_full fx O c sid d f Hu) in H. rewrite (goc_pair c sid) in H.
+  pose proof (goc_fields c sid) as (F1 & _ & F3 & _ & _ & _ & _ & _ & F9). cbv zeta in F1, F3, F9.
+  set (cg := snd (get_or_create c sid)) in *. set (s0 := fst (get_or_create c sid)) in *.
+  destruct (uni_full fx O s0 cg d f) as [e1 st' c1 u| |] eqn:EU; try discriminate.
+  pose proof (uni_full_frame fx O _ _ _ _ _ _ _ _ EU) as (A1 & A2 & A3 & A4).
+  pose proof (uni_full_frame2 fx O _ _ _ _ _ _ _ _ EU) as (B1 & B2).
+  assert (u = []) by (destruct A4 as [-> | (_ & x & Hx)]; [reflexivity | eapply Hq; eassumption]). subst u.
+  cbn [unblock] in H.
+  rewrite pop_no_local_end in H by (cbn [c_sent_end set_streams]; destruct c1; cbn in *; congruence).
+  inversion H; subst e1 c'.
+  assert (Ids : s_id st' = sid) by (rewrite A3; apply goc_id).
+  repeat split.
+  - destruct c1; cbn in *; congruence.
+  - destruct c1; cbn in *; congruence.
+  - destruct c1; cbn in *; congruence.
+  - intros x Hx. assert (x <> sid) by (intros ->; congruence).
+    apply goc_fst_ext. cbn [c_streams set_streams]. rewrite ?c_streams_ss.
+    rewrite find_put_other by (rewrite Ids; assumption). rewrite A2. subst cg. apply goc_find_other. assumption.
+Qed.
+
+(* PROJECTION with unidirectional deliveries in the schedule: the events of a request / response stream are what its own
+   parser returns, whatever is delivered in between to other request streams AND to unidirectional streams *)
+Theorem interleave_projection_mixed : forall tr c outs,
+  c_done c = false -> c_sent_end c = [] -> quiet -> crun c tr = Some outs ->
+  forall sid, is_uni sid = false -> lrun (c_client c) (fst (get_or_create c sid)) (proj sid tr) = Some (outs_of sid outs).
+Proof.
+  induction tr as [|[[s d] f] rest IH]; intros c outs Hd Hs Hq H sid Hb; cbn [crun proj] in *.
+  - inversion H; subst. reflexivity.
+  - destruct (handle_event fx O c (QStream s d f)) as [o c'] eqn:HE. destruct o as [e| |]; try discriminate.
+    destruct (crun c' rest) as [outs'|] eqn:HC; cbn [option_map] in H; [|discriminate]. inversion H; subst outs.
+    unfold outs_of. cbn [filter fst].
+    destruct (is_uni s) eqn:Us.
+    + destruct (step_uni c s d f e c' Hd Hs Us Hq HE) as (D' & S' & C' & G).
+      specialize (IH c' outs' D' S' Hq HC sid Hb). rewrite C', G in IH by assumption.
+      replace (s =? sid) with false by (destruct (s =? sid) eqn:E; [assert (s = sid) by lia; congruence | reflexivity]).
+      exact IH.
+    + destruct (step_bidi c s d f e c' Hd Hs Us HE) as (st' & ER & D' & S' & C' & G1 & G2).
+      specialize (IH c' outs' D' S' Hq HC sid Hb). rewrite C' in IH.
+      destruct (s =? sid) eqn:E.
+      * assert (s = sid) by lia. subst s. cbn [lrun]. rewrite ER. rewrite G1 in IH. rewrite IH. reflexivity.
+      * rewrite G2 in IH by lia. exact IH.
+Qed.
+
+Theorem interleave_independent_mixed : forall tr1 tr2 c outs1 outs2,
+  c_done c = false -> c_sent_end c = [] -> quiet ->
+  crun c tr1 = Some outs1 -> crun c tr2 = Some outs2 ->
+  forall sid, is_uni sid = false -> proj sid tr1 = proj sid tr2 -> outs_of sid outs1 = outs_of sid outs2.
+Proof.
+  intros tr1 tr2 c outs1 outs2 Hd Hs Hq H1 H2 sid Hb Hp.
+  pose proof (interleave_projection_mixed tr1 c outs1 Hd Hs Hq H1 sid Hb) as P1.
+  pose proof (interleave_projection_mixed tr2 c outs2 Hd Hs Hq H2 sid Hb) as P2.
+  rewrite Hp in P1. rewrite P1 in P2. inversion P2. reflexivity.
+Qed.
+
 End Inter.
